@@ -3375,7 +3375,10 @@ impl IceCandidatePair {
             IceRole::Controlling => (g, d),
             IceRole::Controlled => (d, g),
         };
-        (1u64 << 32) * std::cmp::min(g, d) + 2 * std::cmp::max(g, d) + if g > d { 1 } else { 0 }
+        // RFC 8445 § 6.1.2.3. Candidate priorities are 31-bit in the RFC but arrive as u32 from
+        // SDP; saturate so that g = d = u32::MAX cannot overflow the 64-bit result.
+        ((1u64 << 32) * std::cmp::min(g, d))
+            .saturating_add(2 * std::cmp::max(g, d) + if g > d { 1 } else { 0 })
     }
 }
 
